@@ -267,6 +267,8 @@ def _one(args):
 
 
 def run(R):
+    from engine.canary import run_canaries
+    run_canaries(R, ('symx',))
     import multiprocessing as mp
     R.assume('A1', 'A4', 'A5')
     R.trust('float64 evaluation of sin, sinh, exp, log, fractional powers, scipy.special.hyp2f1 and of sympy expressions at 40 digits')
